@@ -29,7 +29,7 @@ PLANS = {
     "C18": dict(models=dict(quick=[("FastPath.tla", "FastPath_design.cfg", 120), ("FastPath.tla", "FastPath_no19.cfg", 120, "AdvertisedLeaderLedTerm")], thorough=[("FastPath.tla", "FastPath_design6.cfg", 300), ("FastPath.tla", "FastPath_no19.cfg", 120, "AdvertisedLeaderLedTerm")]), families=dict(quick=[("notify", 32, 400), ("notifyshort", 8, 0), ("fastpathrace", 6, 0), ("fastpathterm", 6, 0), ("fastpathsnap", 8, 0)], thorough=[("notify", 240, 600), ("elect", 80, 500), ("notifyshort", 48, 0), ("fastpathrace", 32, 0), ("phases", 48, 0), ("fastpathterm", 36, 0), ("fastpathsnap", 48, 0)])),
     "C15": dict(families=dict(quick=[], thorough=[]), suites=["comp:filesnap", "strace:filesys"]),
     "C19": dict(families=dict(quick=[], thorough=[]), suites=["comp:logcache"]),
-    "C20": dict(models=dict(quick=[("Restore.tla", "Restore_q.cfg", 300), ("Restore.tla", "Restore_no12.cfg", 120, "AbortedLeaveNoTrace")], thorough=[("Restore.tla", "Restore_fixed.cfg", 1500), ("Restore.tla", "Restore_no12.cfg", 120, "AbortedLeaveNoTrace")]), families=dict(quick=[("restore", 24, 400), ("restoreinflight", 16, 0)], thorough=[("restore", 240, 600), ("restoreinflight", 128, 0), ("apibound", 48, 0), ("restorebacklog", 32, 0)])),
+    "C20": dict(models=dict(quick=[("Restore.tla", "Restore_q.cfg", 300), ("Restore.tla", "Restore_no12.cfg", 120, "AbortedLeaveNoTrace")], thorough=[("Restore.tla", "Restore_fixed.cfg", 1500), ("Restore.tla", "Restore_no12.cfg", 120, "AbortedLeaveNoTrace")]), families=dict(quick=[("restore", 24, 400), ("restoreinflight", 16, 0), ("restorestale", 12, 0)], thorough=[("restore", 240, 600), ("restorestale", 72, 0), ("restoreinflight", 128, 0), ("apibound", 48, 0), ("restorebacklog", 32, 0)])),
 }
 
 # Every property predicate is evaluated on every trace, whichever family produced it. A change to the library that
@@ -40,7 +40,7 @@ POOL = ["figure8", "cfgtrunc", "snapcfgrace", "restoreinflight", "prevoteterm", 
         "demoteelect", "barrierrace", "transferhang", "notifyshort", "fastpathrace", "xferisolated", "stalledleader",
         "restorebacklog", "ctcrash", "apibound", "leaseadd", "verifywide", "fastpathterm", "mixedbatch", "xfernonvoter",
         "cfgtruncelect", "snapvote", "phases", "staleprefix", "cfgtrunc", "logfail", "leaseslowdisk", "notifyinflight",
-        "fastpathsnap", "snapcfgterm"]
+        "fastpathsnap", "snapcfgterm", "restorestale"]
 POOL_RUNS = dict(quick=2, thorough=8)
 
 
